@@ -24,7 +24,11 @@ theorem gids_tail (s s' : S) (pc : TPc) (h : GIds s) (hs : stepTail s pc = some 
 theorem gids_closer (s s' : S) (pc : CPc) (h : GIds s) (hs : stepCloser s pc = some s') : GIds s' := by
   obtain ⟨i0, i0', i1, i2, i3⟩ := h
   cases pc <;> simp only [stepCloser] at hs <;> (repeat' split at hs) <;> (try cases hs) <;>
-    exact ⟨i0, i0', i1, i2, i3⟩
+    refine ⟨?_, ?_, ?_, ?_, ?_⟩ <;>
+    (try (intro id
+          have hi1 := i1 id
+          have hi2 := i2 id)) <;>
+    simp only [enterDrained, inSwap] at * <;> grind
 
 theorem gids_env (s s' : S) (a : Act) (ha : a.isEnv = true) (h : GIds s) (hs : step s a = some s') : GIds s' := by
   obtain ⟨i0, i0', i1, i2, i3⟩ := h
@@ -34,7 +38,7 @@ theorem gids_env (s s' : S) (a : Act) (ha : a.isEnv = true) (h : GIds s) (hs : s
     refine ⟨i0, i0', ?_, i2, i3⟩
     intro id
     have := i1 id
-    simp only [tally_snoc, aGts, aPre, inSwap, count_range'] at *
+    simp only [tally_snoc, aGts_new, inSwap, count_range'] at *
     grind
   | close => simp only [step] at hs; cases hs; exact ⟨i0, i0', i1, i2, i3⟩
   | die =>
